@@ -266,6 +266,32 @@ func (w *Workspace) UpdateFile(path, content string) {
 	if !sameStringSlice(oldIncludes, fileIndex.Includes) {
 		w.refreshIncludeTreeLocked()
 	}
+	w.reorderFilesLocked()
+}
+
+// reorderFilesLocked lists the member files in the order the include loader visits
+// them (depth first, include directives in the order they are written), which is the
+// order a freshly initialised workspace has.
+func (w *Workspace) reorderFilesLocked() {
+	if w.resolved == nil || w.resolved.Primary == nil {
+		return
+	}
+	seen := map[string]bool{w.rootJournalPath: true}
+	order := make([]string, 0, len(w.resolved.Files))
+	var visit func(path string, journal *ast.Journal)
+	visit = func(path string, journal *ast.Journal) {
+		for _, inc := range includePathsInOrder(path, journal.Includes) {
+			sub, ok := w.resolved.Files[inc]
+			if seen[inc] || !ok {
+				continue
+			}
+			seen[inc] = true
+			order = append(order, inc)
+			visit(inc, sub)
+		}
+	}
+	visit(w.rootJournalPath, w.resolved.Primary)
+	w.resolved.FileOrder = order
 }
 
 func (w *Workspace) buildIndexFromResolvedLocked() {
